@@ -574,7 +574,7 @@ def shard_deep(shard):
 # costs passes x one operator call; the operator itself is checked on every shape anyway).
 
 COUNT_CAP = 12
-SCALE_CPU_LIMIT = 60.0
+SCALE_CPU_LIMIT = 20.0
 
 
 def _coprime_ks(n):
@@ -618,15 +618,23 @@ def scale_shapes(n):
 
 
 def scale_sizes(quick):
+    """Runtime thresholds (small hash tables, small-int cache) and every threshold the code under
+    test names itself: integer literals >= 8 of the package, the recursion limit L and L/2
+    (mc/thresholds.py reads them from the tree under test), each straddled by c-1, c, c+1, c+2
+    (quick: only c, c+1 above 300); thorough adds 3L/2.  Returns (L, constants, sizes)."""
     import sys
+    from ..core import REPO
+    from ..thresholds import code_constants, sizes_around
     lim = sys.getrecursionlimit()
-    small = [9, 10, 33, 34, 257, 258]
+    named = code_constants(REPO)
+    hi = lim + 100 if quick else 2 * lim + 100
+    sizes = set([9, 10, 33, 34, 257, 258]) | set(sizes_around(named, 8, hi))
     if quick:
-        around = [lim // 2, lim // 2 + 1, lim // 2 + 2, lim, lim + 1]
+        sizes = {n for n in sizes if n <= 300 or n in named or n - 1 in named}
+        sizes.add(lim // 2 + 2)
     else:
-        around = [lim // 2 - 1, lim // 2, lim // 2 + 1, lim // 2 + 2, lim - 1, lim, lim + 1, lim + 2,
-                  3 * lim // 2]
-    return lim, sorted(set(small + around))
+        sizes.add(3 * lim // 2)
+    return lim, named, sorted(sizes)
 
 
 def ref_ops_scale(p):
@@ -661,6 +669,9 @@ def check_ops_scale(part, Perm, n, shape):
             part.bump("ops_scale: counter not asked (reference needs more than %d passes)" % COUNT_CAP)
             continue
         case = {"n": n, "shape": shape, "op": name}
+        if ("ops_scale", name) in _HUNG:
+            part.bump("calls skipped after a timeout of the same entry point")
+            continue
         old = signal.signal(signal.SIGVTALRM, _on_alarm)
         signal.setitimer(signal.ITIMER_VIRTUAL, SCALE_CPU_LIMIT)
         try:
@@ -669,6 +680,7 @@ def check_ops_scale(part, Perm, n, shape):
             part.bump("ops_scale: RecursionError (no answer) %s n=%d" % (name, n))
             continue
         except _Timeout:
+            _HUNG.add(("ops_scale", name))
             part.violation("ops_scale", case, {"no answer within %g s of CPU time" % SCALE_CPU_LIMIT: True})
             continue
         except Exception as exc:  # noqa
@@ -1141,22 +1153,28 @@ def run(ctx, only=None):
         else:
             sizes = [(range(9, 15), "all"), (range(31, 37), "all"), (range(63, 67), "all"),
                      (range(127, 133), "ext"), (range(255, 261), "ext"), (range(511, 515), "ext5")]
+        _, named, nsizes = scale_sizes(quick)
+        covered = {n for rng, _ in sizes for n in rng}
+        extra = [n for n in nsizes if n not in covered and n <= (600 if quick else 1100)]
+        sizes += [([n], "all" if n <= 40 else "ext5") for n in extra]
         shards = [(n, j, mode) for rng, mode in sizes for n in rng for j in SCALE_J if j <= n - 2]
+        shards.sort(key=lambda t: t[0])
         res = ctx.pmap(shard_ss_scale, shards)
         ctx.bounds["ss_scale"] = {
             "shape": "decreasing sequence with a block of j non-minima (values b..b+j-1 at positions "
                      "a..a+j-1), forward map; its reference image, inverse map",
             "j": SCALE_J,
+            "constants_in_code": named, "extra_sizes_from_constants": extra,
             "lengths": [{"n": [rng[0], rng[-1]], "offsets(a,b)": mode} for rng, mode in sizes]}
         ctx.section("ss_scale", evaluations=ctx.evals - e0,
                     members_by_length={str(n): sum(m for nn, m in res if nn == n)
                                        for n in sorted({nn for nn, _ in res})})
     if want("ops_scale"):
         e0 = ctx.evals
-        lim, sizes = scale_sizes(quick)
-        shards = [(n, shape) for n in sizes for shape in scale_shapes(n)]
+        lim, named, sizes = scale_sizes(quick)
+        shards = [(n, shape) for n in sizes for shape in scale_shapes(n)]     # simplest first
         ctx.pmap(shard_ops_scale, shards)
-        ctx.bounds["ops_scale"] = {"recursion limit": lim, "lengths": sizes,
+        ctx.bounds["ops_scale"] = {"recursion limit": lim, "constants_in_code": named, "lengths": sizes,
                                    "shapes": sorted(scale_shapes(sizes[0])),
                                    "functions": "4 operators, 6 predicates; 2 counters when <= %d passes" % COUNT_CAP}
         ctx.section("ops_scale", evaluations=ctx.evals - e0, lengths=sizes)
